@@ -221,3 +221,141 @@ Definition routing_ok (is_resp : bool) (ups : list string) (rt : routing) : bool
 Definition wf_config (cfg : config) : bool :=
   wf_upstreams (cf_upstreams cfg) && routing_ok false (cf_upstreams cfg) (cf_request cfg)
   && routing_ok true (cf_upstreams cfg) (cf_response cfg).
+
+(* ================================================================================================ *)
+(* Internal selectors in the request list (sub / node / subnode) and the resolver dae itself uses     *)
+(* ================================================================================================ *)
+(* The request list as written may also hold rules that select the upstream for dae's own lookups of subscription
+   and node hosts.  Such a rule consists of internal selectors of ONE kind only; it never applies to an ordinary
+   question.  A rule mixing kinds, or mixing an internal selector with any other function, is a configuration error. *)
+Inductive ikind := ISub | INode | ISubNode.
+Inductive skey := KDefault | KTag | KTagRegex | KRegex | KLinkKeyword | KLinkRegex | KName | KNameKeyword | KNameRegex
+                | KSubtag | KSubtagRegex | KOther.
+Record selector := { s_neg : bool; s_params : list (skey * string) }.
+Inductive rcond := RDns (c : cond) | RInt (k : ikind) (s : selector).
+Record rrule := { rr_conds : list rcond; rr_target : string }.
+
+Definition ikind_eqb (a b : ikind) : bool :=
+  match a, b with ISub, ISub | INode, INode | ISubNode, ISubNode => true | _, _ => false end.
+
+(* shape of a written rule *)
+Inductive shape := ShDns | ShInt (k : ikind) | ShMixed.
+Definition is_dns_cond (c : rcond) : bool := match c with RDns _ => true | RInt _ _ => false end.
+Definition is_int_cond (k : ikind) (c : rcond) : bool := match c with RInt k' _ => ikind_eqb k k' | RDns _ => false end.
+Definition shape_of (r : rrule) : shape :=
+  if forallb is_dns_cond (rr_conds r) then ShDns
+  else if forallb (is_int_cond ISub) (rr_conds r) then ShInt ISub
+  else if forallb (is_int_cond INode) (rr_conds r) then ShInt INode
+  else if forallb (is_int_cond ISubNode) (rr_conds r) then ShInt ISubNode
+  else ShMixed.
+Definition shape_eqb (a b : shape) : bool :=
+  match a, b with ShDns, ShDns | ShMixed, ShMixed => true | ShInt k, ShInt k' => ikind_eqb k k' | _, _ => false end.
+
+Definition dns_conds (r : rrule) : list cond := flat_map (fun c => match c with RDns c' => [c'] | RInt _ _ => [] end) (rr_conds r).
+Definition to_rule (r : rrule) : rule := {| r_conds := dns_conds r; r_target := rr_target r |}.
+
+(* an ordinary question: internal selectors never hold for it *)
+Definition rcond_holds (ups : list string) (c : rcond) (x : ctx) : bool :=
+  match c with RDns c' => cond_holds ups c' x | RInt _ _ => false end.
+Definition rrule_holds (ups : list string) (r : rrule) (x : ctx) : bool := forallb (fun c => rcond_holds ups c x) (rr_conds r).
+Fixpoint first_target_raw (ups : list string) (rs : list rrule) (fb : string) (x : ctx) : string :=
+  match rs with
+  | [] => fb
+  | r :: rest => if rrule_holds ups r x then rr_target r else first_target_raw ups rest fb x
+  end.
+
+Record rconfig := { rc_upstreams : list string; rc_request : list rrule; rc_fallback : string; rc_response : routing }.
+Definition request_route_raw (rc : rconfig) (q : question) : option req_verdict :=
+  req_verdict_of (rc_upstreams rc)
+    (first_target_raw (rc_upstreams rc) (rc_request rc) (rc_fallback rc) {| x_q := q; x_ips := []; x_from := SAsIs |}).
+
+(* ---------- what an internal selector means ---------- *)
+(* the subject of a lookup dae makes for itself: a subscription (tag, link) or a node (subscription tag or "", name,
+   link, address host).  m_hits: oracle, the (field, regex pattern) pairs that match (field 1 tag, 2 name, 3 link). *)
+Record meta := { m_subtag : string; m_name : string; m_link : string; m_host : string; m_hits : list (N * string) }.
+Definition hit (m : meta) (field : N) (pat : string) : bool :=
+  existsb (fun h => (fst h =? field) && String.eqb (snd h) pat) (m_hits m).
+
+(* None: the key is not accepted for this kind of selector *)
+Definition param_holds (k : ikind) (key : skey) (v : string) (m : meta) : option bool :=
+  match k, key with
+  | ISub, KDefault | ISub, KTag => Some (String.eqb v (m_subtag m))
+  | ISub, KTagRegex | ISub, KRegex => Some (hit m 1 v)
+  | ISub, KLinkKeyword => Some (contains (m_link m) v)
+  | ISub, KLinkRegex => Some (hit m 3 v)
+  | INode, KDefault | INode, KName | ISubNode, KName => Some (String.eqb v (m_name m))
+  | INode, KNameKeyword | ISubNode, KNameKeyword => Some (contains (m_name m) v)
+  | INode, KNameRegex | ISubNode, KNameRegex => Some (hit m 2 v)
+  | INode, KLinkKeyword | ISubNode, KLinkKeyword => Some (contains (m_link m) v)
+  | INode, KLinkRegex | ISubNode, KLinkRegex => Some (hit m 3 v)
+  | ISubNode, KDefault | ISubNode, KSubtag => Some (String.eqb v (m_subtag m))
+  | ISubNode, KSubtagRegex | ISubNode, KRegex => Some (hit m 1 v)
+  | _, _ => None
+  end.
+Definition param_true (k : ikind) (m : meta) (p : skey * string) : bool :=
+  match param_holds k (fst p) (snd p) m with Some b => b | None => false end.
+
+(* alternatives; no alternative at all = "any" (for subnode: any node that came from a subscription);
+   a subnode selector never holds for a node without subscription, negated or not *)
+Definition selector_holds (k : ikind) (s : selector) (m : meta) : bool :=
+  let base := match s_params s with
+              | [] => match k with ISubNode => negb (String.eqb (m_subtag m) "") | _ => true end
+              | ps => existsb (param_true k m) ps
+              end in
+  xorb (s_neg s) base && match k with ISubNode => negb (String.eqb (m_subtag m) "") | _ => true end.
+
+Definition int_rule_holds (k : ikind) (r : rrule) (m : meta) : bool :=
+  negb (Nat.eqb (List.length (rr_conds r)) 0) &&
+  forallb (fun c => match c with RInt k' s => ikind_eqb k k' && selector_holds k s m | RDns _ => false end) (rr_conds r).
+
+(* first rule of kind k, in the order written, that holds *)
+Fixpoint first_internal (k : ikind) (rs : list rrule) (m : meta) : option string :=
+  match rs with
+  | [] => None
+  | r :: rest => if int_rule_holds k r m then Some (rr_target r) else first_internal k rest m
+  end.
+
+(* the upstream named for a node: a subnode rule (only for nodes of a subscription) before a node rule *)
+Definition node_upstream (rs : list rrule) (m : meta) : option string :=
+  match (if String.eqb (m_subtag m) "" then None else first_internal ISubNode rs m) with
+  | Some u => Some u
+  | None => first_internal INode rs m
+  end.
+Definition subscription_upstream (rs : list rrule) (m : meta) : option string := first_internal ISub rs m.
+
+(* who resolves a host name for dae itself *)
+Inductive plan := PlanUp (i : N) | PlanBootstrap | PlanBase | PlanErr.
+
+Definition same_host (a b : string) : bool :=
+  let a' := strip_dot a in let b' := strip_dot b in
+  negb (String.eqb a' "") && negb (String.eqb b' "") && String.eqb (lower_str a') (lower_str b').
+
+(* named: the upstream an internal rule named for the subject (None: no rule applied).
+   The subject's own host (control host) is never resolved through the general rules: named upstream, else bootstrap.
+   Any other host: named upstream, else the general request rules, where asis/reject mean "the base resolver". *)
+Definition lookup_plan (rc : rconfig) (named : option string) (control_host host : string) (q : question) : plan :=
+  match named with
+  | Some n => match index_of (rc_upstreams rc) n 0 with Some i => PlanUp i | None => PlanErr end
+  | None =>
+    if same_host host control_host then PlanBootstrap
+    else match request_route_raw rc q with
+         | Some (QUp i) => PlanUp i
+         | Some _ => PlanBase
+         | None => PlanErr
+         end
+  end.
+
+(* well-formedness of the written request list *)
+Definition selector_ok (k : ikind) (s : selector) : bool :=
+  forallb (fun p => match param_holds k (fst p) (snd p) {| m_subtag := ""; m_name := ""; m_link := ""; m_host := ""; m_hits := [] |} with
+                    | Some _ => true | None => false end) (s_params s).
+Definition rrule_ok (ups : list string) (r : rrule) : bool :=
+  match shape_of r with
+  | ShDns => rule_ok false ups (to_rule r)
+  | ShInt k => negb (reserved (rr_target r)) && defined ups (rr_target r)
+               && forallb (fun c => match c with RInt _ s => selector_ok k s | RDns _ => false end) (rr_conds r)
+  | ShMixed => false
+  end.
+Definition wf_rconfig (rc : rconfig) : bool :=
+  wf_upstreams (rc_upstreams rc) && forallb (rrule_ok (rc_upstreams rc)) (rc_request rc)
+  && target_ok false (rc_upstreams rc) (rc_fallback rc) && routing_ok true (rc_upstreams rc) (rc_response rc).
